@@ -266,6 +266,10 @@ func code39DecodeExtended(encoded []byte) (string, error) {
 	for i := 0; i < length; i++ {
 		c := encoded[i]
 		if c == '+' || c == '$' || c == '%' || c == '/' {
+			if i+1 >= length {
+				// escape character without the character it applies to
+				return string(decoded), gozxing.NewFormatException("encoded = '%c' at the end", c)
+			}
 			next := encoded[i+1]
 			decodedChar := byte(0)
 			switch c {
